@@ -6,6 +6,16 @@ import numpy as np
 from scipy.interpolate import RegularGridInterpolator
 
 
+def _cell_volume(xs):
+    """volume of every cell of the grid, shape (n_1 - 1, ..., n_d - 1)"""
+    vol = 1.0
+    for i, x in enumerate(xs):
+        shape = [1] * len(xs)
+        shape[i] = -1
+        vol = vol * np.reshape(np.diff(x), shape)
+    return vol
+
+
 class InterpND:
     def __init__(self, xs, z, indexing="ij"):
         self.indexing = indexing
@@ -76,6 +86,8 @@ class InterpND:
             # print(self.int_all[i], self.z, j, tmp)
             self.int_all[i] = tmp
         self.int_all = self.int_all / (2**self.n_dim)
+        # the integral over a cell is its mean value times its volume
+        self.int_all = self.int_all * _cell_volume(self.xs)
         self.int_step = np.cumsum(self.int_all.flatten())
 
     def generate(self, N):
@@ -145,7 +157,9 @@ class InterpNDHist:
         self.n_bins = 1
         for i in self.xs:
             self.n_bins *= i.shape[0] - 1
-        self.int_step = np.cumsum(self.coeffs.flatten())
+        self.int_step = np.cumsum(
+            (self.coeffs * _cell_volume(self.xs)).flatten()
+        )
 
     def generate(self, N):
         x = np.random.random((N, self.n_dim))
